@@ -3,6 +3,7 @@ package c16
 import (
 	"bytes"
 	"fmt"
+	"net"
 	"sort"
 	"strings"
 	"time"
@@ -11,14 +12,18 @@ import (
 // ---------------------------------------------------------------- case description
 
 type connSpec struct {
-	V6       bool `json:"v6"`
-	LIP      int  `json:"lip"`      // which local address of the family
-	LPort    int  `json:"lport"`    // index into tcpPorts
-	RPort    int  `json:"rport"`    // remote port 0..65535
-	ReadBuf  int  `json:"readbuf"`  // size of the service's read buffer
-	DelayMs  int  `json:"delay_ms"` // service sleeps before its first read
-	Greeting int  `json:"greeting"` // bytes the service writes at accept
-	SameAs   int  `json:"same_as"`  // -1, or the earlier connection whose addresses this one re-uses
+	V6       bool   `json:"v6"`
+	LOct     int    `json:"lip"`           // local address: index into the octet pool
+	LPort    int    `json:"lport"`         // index into tcpPorts
+	ROct     int    `json:"rip"`           // remote address: index into the octet pool
+	RPort    int    `json:"rport"`         // remote port 0..65535
+	Mapped   bool   `json:"mapped"`        // IPv4 addresses travel in their 16-byte (IPv4-mapped) form
+	ReadBuf  int    `json:"readbuf"`       // size of the service's read buffer
+	DelayMs  int    `json:"delay_ms"`      // service sleeps before its first read
+	Greeting int    `json:"greeting"`      // bytes the service writes at accept
+	Reuse    bool   `json:"reuse"`         // the service writes from one buffer that it overwrites as soon as Write returns
+	SameAs   int    `json:"same_as"`       // -1, or the earlier connection whose addresses this one re-uses
+	Rel      string `json:"rel,omitempty"` // how the generator derived the addresses (label only)
 }
 
 type step struct {
@@ -30,6 +35,7 @@ type step struct {
 	LPort   int    `json:"lport,omitempty"`   // udp: index into udpPorts
 	RPort   int    `json:"rport,omitempty"`   // udp
 	Replies []int  `json:"replies,omitempty"` // udp: sizes of the datagrams the service answers with
+	Reuse   bool   `json:"reuse,omitempty"`   // udp: the service answers from one reused buffer
 }
 
 type sessCase struct {
@@ -43,24 +49,68 @@ type sessCase struct {
 	Abort bool `json:"abort,omitempty"`
 }
 
-var localV4 = [][]byte{{192, 0, 2, 10}, {198, 51, 100, 77}}
-var localV6 = [][]byte{
-	{0x20, 0x01, 0x0d, 0xb8, 0, 0, 0, 0, 0, 0, 0, 0, 0, 0, 0, 5},
-	{0x20, 0x01, 0x0d, 0xb8, 0, 1, 0, 0, 0, 0, 0, 0, 0, 0, 0xab, 0xcd},
+// octets is the pool of first octets (IPv4) / second bytes (IPv6) of every address in a
+// session, local or remote. The rest of an address is the case's serial number, which
+// ties what the services see to the case. The pool is small and its members are
+// decimal prefixes / suffixes of each other (10, 110, 210, 1, 11, 21, 31, 81), like the
+// service ports (2, 22, 220, 1, 11, 44, 443, 80, 808, 8080): the textual forms of the
+// addresses of simultaneously open connections then share prefixes and suffixes, and
+// concatenations such as "10.0.0.1:2"+"210.0.0.5:40" / "10.0.0.1:22"+"10.0.0.5:40"
+// coincide.
+var octets = []int{10, 110, 210, 1, 11, 21, 31, 81}
+
+// shifts: hi is lo with the decimal digit d put in front.
+var shifts = []struct{ d, hi, lo int }{{1, 110, 10}, {2, 210, 10}, {1, 11, 1}, {2, 21, 1}, {3, 31, 1}, {8, 81, 1}}
+
+func octIndex(v int) int {
+	for i, o := range octets {
+		if o == v {
+			return i
+		}
+	}
+	return 0
 }
 
-func remoteIP(v6 bool, serial int, alt byte) []byte {
-	if v6 {
-		return []byte{0xfd, alt, 0, 0, 0, 0, 0, 0, 0, 0, 0, 0, byte(serial >> 24), byte(serial >> 16), byte(serial >> 8), byte(serial)}
+func portIndex(v int) int {
+	for i, p := range tcpPorts {
+		if p == v {
+			return i
+		}
 	}
-	return []byte{10 + alt, byte(serial >> 16), byte(serial >> 8), byte(serial)}
+	return -1
+}
+
+func mod(i, n int) int { return ((i % n) + n) % n }
+
+// caseIP builds an address of the case: first is the distinguishing byte.
+func caseIP(v6 bool, first int, serial int, mapped bool) []byte {
+	if v6 {
+		return []byte{0xfd, byte(first), 0, 0, 0, 0, 0, 0, 0, 0, 0, 0, byte(serial >> 24), byte(serial >> 16), byte(serial >> 8), byte(serial)}
+	}
+	ip := []byte{byte(first), byte(serial >> 16), byte(serial >> 8), byte(serial)}
+	if mapped {
+		return append([]byte{0, 0, 0, 0, 0, 0, 0, 0, 0, 0, 0xff, 0xff}, ip...)
+	}
+	return ip
+}
+
+// serialOf recovers the case serial from an address string as a service sees it.
+func serialOf(hostport string) string {
+	ip := net.ParseIP(hostOf(hostport))
+	if ip == nil {
+		return "?" + hostport
+	}
+	if v4 := ip.To4(); v4 != nil {
+		return fmt.Sprint(int(v4[1])<<16 | int(v4[2])<<8 | int(v4[3]))
+	}
+	return fmt.Sprint(int(ip[12])<<24 | int(ip[13])<<16 | int(ip[14])<<8 | int(ip[15]))
 }
 
 func (c connSpec) addrs(serial int) (addr, addr) {
-	if c.V6 {
-		return addr{IP: localV6[c.LIP%len(localV6)], Port: tcpPorts[c.LPort%len(tcpPorts)]}, addr{IP: remoteIP(true, serial, 0), Port: c.RPort}
-	}
-	return addr{IP: localV4[c.LIP%len(localV4)], Port: tcpPorts[c.LPort%len(tcpPorts)]}, addr{IP: remoteIP(false, serial, 0), Port: c.RPort}
+	lo, ro := octets[mod(c.LOct, len(octets))], octets[mod(c.ROct, len(octets))]
+	mapped := c.Mapped && !c.V6
+	return addr{IP: caseIP(c.V6, lo, serial, mapped), Port: tcpPorts[mod(c.LPort, len(tcpPorts))]},
+		addr{IP: caseIP(c.V6, ro, serial, mapped), Port: mod(c.RPort, 65536)}
 }
 
 // stream is the byte stream of one direction of one connection: position-dependent and
@@ -164,16 +214,9 @@ func runSession(c sessCase, patient bool) error {
 		return fmt.Errorf("infra: %v", err)
 	}
 	serial := nextSerial()
-	owners := []string{
-		addr{IP: remoteIP(false, serial, 0)}.hostString(), addr{IP: remoteIP(true, serial, 0)}.hostString(),
-		addr{IP: remoteIP(false, serial, 1)}.hostString(), addr{IP: remoteIP(true, serial, 1)}.hostString(),
-	}
+	owner := fmt.Sprint(serial)
 	var planKeys []string
-	defer func() {
-		for _, o := range owners {
-			world.forget(o, planKeys)
-		}
-	}()
+	defer func() { world.forget(owner, planKeys) }()
 
 	conns := make([]*connState, len(c.Conns))
 	groups := map[int]*groupState{}
@@ -182,7 +225,12 @@ func runSession(c sessCase, patient bool) error {
 		st := &connState{root: i}
 		if cs.SameAs >= 0 && cs.SameAs < i {
 			st.root = conns[cs.SameAs].root
-			st.l, st.r = conns[st.root].l, conns[st.root].r
+			// the same addresses, possibly in the other wire form (4-byte / IPv4-mapped):
+			// their textual form, which identifies the connection, is the same
+			rs := c.Conns[st.root]
+			rs.Mapped = cs.Mapped
+			st.l, st.r = rs.addrs(serial)
+			st.r.Port = conns[st.root].r.Port
 		} else {
 			st.l, st.r = cs.addrs(serial)
 			// distinct connections need distinct ids: move the remote port until free
@@ -208,7 +256,7 @@ func runSession(c sessCase, patient bool) error {
 	world.mu.Lock()
 	for i, cs := range c.Conns {
 		st := conns[i]
-		p := plan{readBuf: cs.ReadBuf, delay: time.Duration(cs.DelayMs) * time.Millisecond}
+		p := plan{readBuf: cs.ReadBuf, delay: time.Duration(cs.DelayMs) * time.Millisecond, reuse: cs.Reuse}
 		if single(i) && cs.Greeting > 0 {
 			p.greeting = stream(100+i, 0, cs.Greeting)
 			st.greeting = p.greeting
@@ -236,9 +284,9 @@ func runSession(c sessCase, patient bool) error {
 		m := &udpMsg{}
 		lp := udpPorts[s.LPort%len(udpPorts)]
 		if s.V6 {
-			m.l, m.r = addr{UDP: true, IP: localV6[0], Port: lp}, addr{UDP: true, IP: remoteIP(true, serial, 0), Port: s.RPort}
+			m.l, m.r = addr{UDP: true, IP: caseIP(true, octets[0], serial, false), Port: lp}, addr{UDP: true, IP: caseIP(true, octets[1], serial, false), Port: s.RPort}
 		} else {
-			m.l, m.r = addr{UDP: true, IP: localV4[0], Port: lp}, addr{UDP: true, IP: remoteIP(false, serial, 0), Port: s.RPort}
+			m.l, m.r = addr{UDP: true, IP: caseIP(false, octets[0], serial, false), Port: lp}, addr{UDP: true, IP: caseIP(false, octets[1], serial, false), Port: s.RPort}
 		}
 		for udpKeys[m.l.String()+"|"+m.r.String()] {
 			m.r.Port = (m.r.Port + 1) % 65536
@@ -249,7 +297,7 @@ func runSession(c sessCase, patient bool) error {
 			m.replies = append(m.replies, stream(300+si*4+ri, 0, n))
 		}
 		m.key = connKey("udp", m.l.String(), m.r.String())
-		world.plans[m.key] = plan{replies: m.replies}
+		world.plans[m.key] = plan{replies: m.replies, reuse: s.Reuse}
 		planKeys = append(planKeys, m.key)
 		udps = append(udps, m)
 		udpByStep[si] = m
@@ -297,11 +345,7 @@ func runSession(c sessCase, patient bool) error {
 	go a.readLoop()
 
 	ownerInvs := func() []*invocation { // world.mu held
-		var out []*invocation
-		for _, o := range owners {
-			out = append(out, world.invs[o]...)
-		}
-		return out
+		return world.invs[owner]
 	}
 	findInv := func(key string) []*invocation { // world.mu held
 		var out []*invocation
@@ -549,9 +593,9 @@ func runSession(c sessCase, patient bool) error {
 			case 1:
 				r.Port = (r.Port + 1) % 65536
 			case 2:
-				l.Port = tcpPorts[(c.Conns[st.root].LPort+1)%len(tcpPorts)]
+				l.Port = tcpPorts[mod(c.Conns[st.root].LPort+1, len(tcpPorts))]
 			case 3:
-				r.IP = remoteIP(len(r.IP) == 16, serial, 1)
+				r.IP = caseIP(c.Conns[st.root].V6, 99, serial, len(r.IP) == 16) // an address of this case that is nobody's
 			}
 			if _, clash := byKey[l.String()+"|"+r.String()]; clash {
 				continue
@@ -894,5 +938,3 @@ func matchPerm(exp [][]byte, invs []*invocation, same func(got, exp []byte) bool
 	}
 	return rec(0)
 }
-
-func (a addr) hostString() string { return hostOf(a.String()) }
